@@ -36,7 +36,7 @@ func TestC01Select(t *testing.T) {
 		},
 		Teardown: func() { env.Close() },
 		Gen: func(t *rapid.T) spec {
-			s := spec{DB: e1.Gen(t, e1.Opts{MaxTables: 2, Indexes: true, History: true, BigRows: vt.Pick(1500, 6000)})}
+			s := spec{DB: e1.Gen(t, e1.Opts{MaxTables: 2, Indexes: true, History: true, BigRows: vt.Pick(1500, 6000), WideWR: true})}
 			n := rapid.IntRange(0, 6).Draw(t, "npick")
 			for i := 0; i < n; i++ {
 				s.ColPick = append(s.ColPick, rapid.IntRange(0, 60).Draw(t, "pick"))
